@@ -18,17 +18,17 @@ def configs(tier):
         cs.append(Config('%s-h%d-c%d-%d_%d-m%d' % (short(sp), hist, how, b, e, mut), 'C11', [sp, hist, how, b, e, mut], **kw))
     if tier == 'quick':
         add(spec('localp', 'localp', 2, 3, 2, order=1, limits=2), 1, 3, 1, 3, 0); add(spec('localp', 'semi-localp', 2, 2, 2, order=2), 2, 0, mut=1); add(spec('localp', 'localp', 2, 2, 1, order=1), 2, 3, 1, 2, 0)
-        add(spec('global', 'clenshaw-curtis', 2, 3, 2, transform=1), 1, 3, 0, 2, 1); add(spec('global', 'leja', 2, 2, 2), 2, 1, mut=0); add(spec('global', 'gauss-legendre', 2, 2, 2), 0, 3, 1, 2, 0)
+        add(spec('global', 'clenshaw-curtis', 2, 3, 2, transform=1), 1, 3, 0, 2, 1); add(spec('global', 'leja', 2, 2, 2), 2, 1, mut=0); add(spec('global', 'gauss-legendre', 2, 2, 2), 0, 3, 1, 2, 0); add(spec('global', 'gauss-jacobi', 2, 2, 2, transform=1, alpha=0.5, beta=1.5), 0, 0, mut=1); add(spec('global', 'gauss-gegenbauer', 1, 2, 2, transform=1, alpha=2.0), 0, 3, 0, 1, 0)
         add(spec('sequence', 'rleja', 2, 3, 2), 1, 3, 2, 3, 0); add(spec('sequence', 'leja', 2, 2, 2), 2, 2, mut=1); add(spec('sequence', 'min-delta', 2, 2, 1), 2, 3, 0, 1, 0)
         add(spec('fourier', 'fourier', 2, 2, 1), 1, 3, 1, 2, 0); add(spec('fourier', 'fourier', 1, 2, 1), 2, 0, mut=1)
         add(spec('wavelet', 'wavelet', 2, 2, 1, order=1), 1, 3, 0, 1, 0); add(spec('wavelet', 'wavelet', 1, 2, 1, order=1), 2, 1, mut=1)
         for sp in (spec('wavelet', 'wavelet', 1, 3, 2, order=1), spec('localp', 'localp', 2, 3, 2, order=1), spec('global', 'leja', 2, 3, 2), spec('sequence', 'rleja', 2, 3, 2), spec('fourier', 'fourier', 1, 3, 1)): add(sp, 2, 3, 1, 3, 2); add(sp, 1, 3, 2, 3, 2)
     else:
         fams = [spec('localp', r, 2, 3, 2, order=o, limits=(2 if o == 1 else 0)) for r in LOCAL_RULES for o in (0, 1, 2, 3) if not (o == 0 and r != 'localp')]
-        fams += [spec('global', r, 2, 3, 2, transform=(1 if r == 'fejer2' else 0)) for r in ('clenshaw-curtis', 'leja', 'fejer2', 'rleja-odd', 'gauss-patterson')] + [spec('global', r, 2, 3, 2) for r in ('gauss-legendre', 'chebyshev', 'gauss-hermite')]
+        fams += [spec('global', r, 2, 3, 2, transform=(1 if r == 'fejer2' else 0)) for r in ('clenshaw-curtis', 'leja', 'fejer2', 'rleja-odd', 'gauss-patterson')] + [spec('global', r, 2, 3, 2) for r in ('gauss-legendre', 'chebyshev', 'gauss-hermite')] + [spec('global', 'gauss-jacobi', 2, 3, 2, transform=1, alpha=0.5, beta=1.5), spec('global', 'gauss-laguerre', 2, 3, 2, transform=1, alpha=1.0), spec('global', 'gauss-chebyshev2', 2, 3, 2, transform=1)]
         fams += [spec('sequence', r, 2, 3, 2) for r in SEQUENCE_RULES] + [spec('fourier', 'fourier', 2, 3, 1), spec('wavelet', 'wavelet', 2, 3, 1, order=1), spec('wavelet', 'wavelet', 1, 3, 2, order=3)]
         for sp in fams:
-            nonnested = any(r in sp for r in ('gauss-legendre', 'chebyshev', 'gauss-hermite'))
+            nonnested = any(r in sp for r in ('gauss-legendre', 'chebyshev', 'gauss-hermite', 'gauss-jacobi', 'gauss-laguerre'))
             for hist in ((0,) if nonnested else (0, 1, 2)):
                 for how in (0, 1, 2): add(sp, hist, how, mut=how % 2)
                 for (b, e) in ((0, 1), (1, 3), (0, 3), (2, 3)): add(sp, hist, 3, b, e, (b + e) % 2); add(sp, hist, 3, b, e, 2)
